@@ -42,17 +42,17 @@ inductive CfgResult (α : Type) where
 deriving Repr, DecidableEq
 
 /-- flag spellings -/
-def fI : List Bytes := [ascii "-i", ascii "--ip-address"]
-def fP : List Bytes := [ascii "-p", ascii "--port"]
-def fD : List Bytes := [ascii "-d", ascii "--directory"]
-def fRD : List Bytes := [ascii "-rd", ascii "--receive-directory"]
-def fSD : List Bytes := [ascii "-sd", ascii "--send-directory"]
-def fS : List Bytes := [ascii "-s", ascii "--single-port"]
-def fR : List Bytes := [ascii "-r", ascii "--read-only"]
-def fH : List Bytes := [ascii "-h", ascii "--help"]
-def fDup : List Bytes := [ascii "--duplicate-packets"]
-def fOw : List Bytes := [ascii "--overwrite"]
-def fKeep : List Bytes := [ascii "--keep-on-error"]
+def fI : List Bytes := [[45, 105], [45, 45, 105, 112, 45, 97, 100, 100, 114, 101, 115, 115]]  -- -i --ip-address
+def fP : List Bytes := [[45, 112], [45, 45, 112, 111, 114, 116]]  -- -p --port
+def fD : List Bytes := [[45, 100], [45, 45, 100, 105, 114, 101, 99, 116, 111, 114, 121]]  -- -d --directory
+def fRD : List Bytes := [[45, 114, 100], [45, 45, 114, 101, 99, 101, 105, 118, 101, 45, 100, 105, 114, 101, 99, 116, 111, 114, 121]]  -- -rd --receive-directory
+def fSD : List Bytes := [[45, 115, 100], [45, 45, 115, 101, 110, 100, 45, 100, 105, 114, 101, 99, 116, 111, 114, 121]]  -- -sd --send-directory
+def fS : List Bytes := [[45, 115], [45, 45, 115, 105, 110, 103, 108, 101, 45, 112, 111, 114, 116]]  -- -s --single-port
+def fR : List Bytes := [[45, 114], [45, 45, 114, 101, 97, 100, 45, 111, 110, 108, 121]]  -- -r --read-only
+def fH : List Bytes := [[45, 104], [45, 45, 104, 101, 108, 112]]  -- -h --help
+def fDup : List Bytes := [[45, 45, 100, 117, 112, 108, 105, 99, 97, 116, 101, 45, 112, 97, 99, 107, 101, 116, 115]]  -- --duplicate-packets
+def fOw : List Bytes := [[45, 45, 111, 118, 101, 114, 119, 114, 105, 116, 101]]  -- --overwrite
+def fKeep : List Bytes := [[45, 45, 107, 101, 101, 112, 45, 111, 110, 45, 101, 114, 114, 111, 114]]  -- --keep-on-error
 
 /-- the `while let Some(arg) = args.next()` loop of `Config::new` -/
 def parseServerArgs (o : Oracles) : List Bytes → Cfg → CfgResult Cfg
@@ -130,11 +130,11 @@ def CCfg.default : CCfg :=
     windowsize := Gen.clientDefaultWindowsize, timeoutS := Gen.clientDefaultTimeoutS, upload := false,
     recvDir := [], filePath := [], cleanOnError := true }
 
-def fB : List Bytes := [ascii "-b", ascii "--blocksize"]
-def fW : List Bytes := [ascii "-w", ascii "--windowsize"]
-def fT : List Bytes := [ascii "-t", ascii "--timeout"]
-def fU : List Bytes := [ascii "-u", ascii "--upload"]
-def fDl : List Bytes := [ascii "-d", ascii "--download"]
+def fB : List Bytes := [[45, 98], [45, 45, 98, 108, 111, 99, 107, 115, 105, 122, 101]]  -- -b --blocksize
+def fW : List Bytes := [[45, 119], [45, 45, 119, 105, 110, 100, 111, 119, 115, 105, 122, 101]]  -- -w --windowsize
+def fT : List Bytes := [[45, 116], [45, 45, 116, 105, 109, 101, 111, 117, 116]]  -- -t --timeout
+def fU : List Bytes := [[45, 117], [45, 45, 117, 112, 108, 111, 97, 100]]  -- -u --upload
+def fDl : List Bytes := [[45, 100], [45, 45, 100, 111, 119, 110, 108, 111, 97, 100]]  -- -d --download
 
 /-- `ClientConfig::new`: note that the program name is *not* skipped (it is taken as a file name and
 overwritten by any later positional argument) -/
